@@ -58,7 +58,7 @@ func SxPacket(x Sx) *types.Packet {
 	return p
 }
 
-func guarded(f func() Sx) (out Sx) {
+func guardedC20(f func() Sx) (out Sx) {
 	done := make(chan Sx, 1)
 	go func() {
 		defer func() {
@@ -80,7 +80,7 @@ func guarded(f func() Sx) (out Sx) {
 
 // ---------------------------------------------------------------- 2001 marshal
 func run2001(in Sx) Sx {
-	return guarded(func() Sx {
+	return guardedC20(func() Sx {
 		sel := in.L[0].Int()
 		var b []byte
 		var err error
@@ -139,7 +139,7 @@ func mustParse(s string) Sx {
 }
 
 func run2002(in Sx) Sx {
-	return guarded(func() Sx {
+	return guardedC20(func() Sx {
 		sel := in.L[0].Int()
 		buf := append([]byte{}, in.L[1].B...)
 		if sel == 0 {
@@ -193,7 +193,7 @@ func run2002(in Sx) Sx {
 //                gu = generic Unmarshal of the VT bytes: (#1 value) | (#0)
 //                vu = VT Unmarshal of the generic bytes: (#1 value) | (#0) | () when gm failed
 func run2003(in Sx) Sx {
-	return guarded(func() Sx {
+	return guardedC20(func() Sx {
 		sel := in.L[0].Int()
 		mo := proto.MarshalOptions{Deterministic: true}
 		if sel == 0 {
@@ -289,7 +289,7 @@ func (r *fragReader) Read(p []byte) (int, error) {
 //       bit 2 (4): the stream is truncated to `cut` bytes (4th input element)
 // -> (full-stream (item..)) item = (packet) | (#0) for an error other than io.EOF (then stop)
 func run2004(in Sx) Sx {
-	return guarded(func() Sx {
+	return guardedC20(func() Sx {
 		mode := in.L[0].Int()
 		var wbuf bytes.Buffer
 		ws := util.NewProtoStream(context.Background(), nil, &wbuf)
@@ -365,7 +365,7 @@ func run2004(in Sx) Sx {
 func recByte(seed, j int) byte { return byte(seed + j) }
 
 func run2005(in Sx) Sx {
-	return guarded(func() Sx {
+	return guardedC20(func() Sx {
 		sizes := make([]int, len(in.L))
 		seeds := make([]int, len(in.L))
 		for i, x := range in.L {
